@@ -9,11 +9,13 @@ Definition dl (h : N) : label := R_dial (hv h).
 Definition sc (k : N) : label := R_set_client (N.to_nat k).
 Definition cb : label := R_connect_begin.
 Definition cs (k : N) : label := R_connect_start (N.to_nat k).
+Definition csc (k : N) : label := R_connect_start_clean (N.to_nat k).   (* BaseClient.Connect with CleanSession *)
 Definition ca (k : N) : label := R_connack (N.to_nat k).
 Definition ib (k m : N) : label := B_inbound (N.to_nat k) m.
 Definition ih (k m h : N) : label := B_inbound_handle (N.to_nat k) m (hv h).  (* the handler called for m calls Handle(h) *)
 Definition qp (k m d : N) : label := B_q2_publish (N.to_nat k) m (negb (d =? 0)).  (* QoS 2 PUBLISH, d=1: DUP *)
 Definition qr (k m : N) : label := B_q2_release (N.to_nat k) m.                   (* its PUBREL *)
+Definition qu (k m : N) : label := B_pubrel_unknown (N.to_nat k) m.               (* a PUBREL for a message that is not stored *)
 Definition cr (k : N) : label := R_connect_return (N.to_nat k).
 Definition en (k : N) : label := R_end (N.to_nat k).
 
@@ -22,7 +24,8 @@ Inductive obs :=
 | oh (k m h : N)      (* exactly one handler call: instance h received message m of connection k *)
 | od (k m : N)        (* processed by the reader (acknowledged / a later packet was), no handler call *)
 | os (k m : N)        (* never processed within the time limit *)
-| om (k m : N).       (* handed over more than once *)
+| om (k m : N)        (* handed over more than once, or a hand-over nothing in the schedule stands for *)
+| on (k m h : N).     (* handed over on PUBREL, but no PUBCOMP was written *)
 
 Fixpoint obs_events (l : list obs) : option (list event) :=
   match l with
@@ -111,6 +114,10 @@ Example c17_check_selftest :
                      [oh 0 7 1; oh 0 8 1; oh 1 9 1; oh 1 10 1]) = true /\
   c17_loop_prop_ok ([dl 0; sc 0; cb; cs 0; ca 0; qp 0 7 0; uh 1; qr 0 7; ib 0 8], [od 0 7; oh 0 8 1]) = false /\
   c17_prop_ok ([uh 1; dl 0; sc 0; cb; cs 0; ca 0; qp 0 7 0; uh 2; qr 0 7; ib 0 8], [oh 0 7 1; oh 0 8 2]) = false /\
+  (* received QoS 2 state is session state: PUBREL alone on the next connection releases; once *)
+  c17_loop_model_ok ([uh 1; dl 0; sc 0; cb; cs 0; ca 0; qp 0 7 0; en 0; dl 0; sc 1; cb; cs 1; ca 1; uh 2; qr 1 7; ib 1 8],
+                     [oh 1 7 2; oh 1 8 2]) = true /\
+  c17_loop_prop_ok ([uh 1; dl 0; sc 0; cb; cs 0; ca 0; qp 0 7 0; en 0; dl 0; sc 1; cb; cs 1; ca 1; qr 1 7; ib 1 8], [od 1 7; oh 1 8 1]) = false /\
   (* Handle racing with Connect (stress family): whatever the interleaving, the message sent after both returned goes to h2 *)
   c17_race_prop_ok ([uh 1; dl 0; sc 0], 2, [cb; cs 0; ca 0; ib 0 1; cr 0], [ib 0 2], [oh 0 1 1; oh 0 2 2]) = true /\
   c17_race_prop_ok ([uh 1; dl 0; sc 0], 2, [cb; cs 0; ca 0; ib 0 1; cr 0], [ib 0 2], [oh 0 1 1; oh 0 2 1]) = false.
